@@ -561,6 +561,47 @@ def check(ctx):
                 else:
                     ctx.ok(rec, n.stmt, "no-record branch cannot reach the new-row stores")
 
+        # path-sensitive form of the same claim: every path from the entry to a new-row store establishes the record
+        # flag as true on the way (a test ``not flag and <something>`` does not do so on its false edge)
+        if newrow is not None and groups.get(newrow):
+            store_ids = {cfg.node_of(s).id for a, t, v, s, k in groups[newrow] if cfg.node_of(s) is not None}
+
+            def implied(test, label):
+                for c_, p_ in conjuncts(test, label == "T"):
+                    if isinstance(c_, ast.Name) and c_.id == norec_param:
+                        return p_
+                return None
+
+            seen_, stack_, witness = set(), [(cfg.entry.id, None)], None
+            while stack_ and witness is None:
+                nid, know = stack_.pop()
+                if (nid, know) in seen_:
+                    continue
+                seen_.add((nid, know))
+                if nid in store_ids and know is not True:
+                    witness = nid
+                    break
+                node_ = cfg.nodes[nid]
+                for y in cfg.g.successors(nid):
+                    labs = cfg.g[nid][y]["labels"]
+                    k2s = set()
+                    for lab in labs:
+                        k2 = know
+                        if node_.kind == "test" and lab in ("T", "F") and node_.expr is not None:
+                            imp = implied(node_.expr, lab)
+                            if imp is not None:
+                                if know is not None and know != imp:
+                                    continue  # infeasible edge
+                                k2 = imp
+                        k2s.add(k2)
+                    for k2 in k2s:
+                        stack_.append((y, k2))
+            if witness is not None:
+                wn = cfg.nodes[witness]
+                ctx.fail(rec, wn.stmt, "a path reaches the new-row recording code without the record flag having been tested true: an evaluation flagged as not to be recorded (at a point not in the log) is appended as a new record", construct="new-row stores reachable with the no-record flag unset")
+            else:
+                ctx.ok(rec, rec.node, "every path to the new-row stores has established the record flag")
+
     # ------------------------------------------------------------------ R6
     ctx.rule("R6", "merge = precision-weighted mean and combined SD (term identity)", floor=1, policy="degrade")
     merge = None
